@@ -142,6 +142,9 @@ gcm_decrypt(br_sslrec_gcm_context *cc,
 	for (u = 0; u < 16; u ++) {
 		bad |= tag[u] ^ buf[len + u];
 	}
+#ifdef BR_VERIF
+	BR_VERIF_PUBLIC(&bad, sizeof bad);
+#endif
 	if (bad) {
 		return NULL;
 	}
